@@ -35,7 +35,7 @@ ops:
 * `ack <amount> <spelling> <name:value;…|->` — the IBC middleware's `OnAcknowledgementPacket` for acknowledgement bytes whose
   top-level JSON members are these (spelling 0 = exactly what `json.Marshal` writes, else any other byte string for the same
   members): the REGENERATED statement program interpreted under the alternating schedule; answers `ok refund=<n>` or
-  `err:<kind> refund=0` (kinds: unmarshal, not-canonical, invalid-type, …) — `refund` = what the ICS-20 application returned
+  `err:<kind> refund=0` (kinds: unmarshal, not-canonical, …) — `refund` = what the ICS-20 application returned
   from the escrow account.
 -/
 open FxVerif FxVerif.Util FxVerif.Model.C17
